@@ -623,12 +623,13 @@ theorem C04.flag_table_matches {K : Type} [Field K] [DecidableEq K] (i : Impl K)
 /-- The remaining extracted facts the interpreter relies on: `A ** n` is the loop of
 right-nested `OperatorComp`, operators out-rank space elements (`__array_priority__`),
 `Functional.__radd__` is `__add__`, and both scalar-merging shortcuts are
-`scalar = scalar * operator.scalar; operator = operator.operator`. -/
+`scalar = scalar * operator.scalar; operator = operator.operator`; `A @ x` is `A.__mul__(x)`
+and the reflected `x @ A` is `A.__rmul__(x)`, so every `@` form is the `*` form of the model. -/
 theorem C04.extracted_facts :
     tables.powIsCompLoop = true ∧ tables.operatorPriorityHigher = true ∧
     tables.functionalRAddIsAdd = true ∧ tables.scalarMergeIsProduct = true ∧
-    tables.operatorMatmul = Deleg.selfMulOther :=
-  ⟨rfl, rfl, rfl, rfl, rfl⟩
+    tables.operatorMatmul = Deleg.selfMulOther ∧ tables.operatorRMatmul = Deleg.selfRMulOther :=
+  ⟨rfl, rfl, rfl, rfl, rfl, rfl⟩
 
 /-! ### Non-vacuity: concrete instances -/
 
